@@ -14,6 +14,7 @@ import sys
 from rv import core, sched
 from rv.locks import wrap_all_locks
 from rv.vclock import VClock, patched
+from rv.faults import make_exception
 
 PID = "C08"
 LEVEL = "exploration"
@@ -85,7 +86,8 @@ class Stub:
         if self.slow and self.clock is not None:
             self.clock.advance(self.slow)      # the agent call itself takes (virtual) time
         if self.verdict == "raise":
-            raise Boom("agent crashed")
+            self.exc_index = getattr(self, "exc_index", 0) + 7
+            raise make_exception(self.exc_index, "agent crashed")      # a different exception class (with / without message) each time
         return ActionProtein(self.verdict, "p", 0.9)
 
 
